@@ -28,4 +28,412 @@ theorem sum_drop_map_snd (u : List (Nat × Nat)) (i : Nat) :
     npSum (sliceFrom (u.map (·.2)) i) = sumCounts (u.drop i) := by
   simp [npSum, sliceFrom, sumCounts, List.map_drop]
 
+/-! ### `np.unique` of a block-sorted array -/
+
+theorem insertCount_pos {x : Nat} {u : List (Nat × Nat)} (h : ∀ p ∈ u, 1 ≤ p.2) : ∀ p ∈ insertCount x u, 1 ≤ p.2 := by
+  induction u with
+  | nil => intro p hp; simp [insertCount] at hp; subst hp; simp
+  | cons q t ih =>
+    obtain ⟨v, c⟩ := q
+    intro p hp
+    unfold insertCount at hp
+    split at hp
+    · rcases List.mem_cons.1 hp with rfl | hp
+      · simp
+      · exact h p hp
+    · split at hp
+      · rcases List.mem_cons.1 hp with rfl | hp
+        · simp
+        · exact h p (List.mem_cons_of_mem _ hp)
+      · rcases List.mem_cons.1 hp with rfl | hp
+        · exact h _ List.mem_cons_self
+        · exact ih (fun r hr => h r (List.mem_cons_of_mem _ hr)) p hp
+
+theorem uniqueCounts_pos (a : List Nat) : ∀ p ∈ Hierarchy.uniqueCounts a, 1 ≤ p.2 := by
+  induction a with
+  | nil => intro p hp; cases hp
+  | cons x t ih => exact insertCount_pos ih
+
+/-- the array sorted into blocks: every level repeated by its count -/
+def sortedOf (u : List (Nat × Nat)) : List Nat := u.flatMap fun p => List.replicate p.2 p.1
+
+theorem foldr_insertCount_replicate (l : Nat) (t : List (Nat × Nat)) (ht : ∀ p ∈ t, l < p.1) :
+    ∀ c, List.foldr insertCount t (List.replicate (c + 1) l) = (l, c + 1) :: t := by
+  intro c
+  induction c with
+  | zero =>
+    simp only [List.replicate, List.foldr]
+    cases t with
+    | nil => rfl
+    | cons q r =>
+      obtain ⟨v, d⟩ := q
+      have : l < v := ht (v, d) List.mem_cons_self
+      simp [insertCount, this]
+  | succ c ih =>
+    rw [List.replicate_succ, List.foldr_cons, ih]
+    simp [insertCount]
+
+theorem uniqueCounts_sortedOf (u : List (Nat × Nat)) (h : KeysAsc u) (hp : ∀ p ∈ u, 1 ≤ p.2) :
+    Hierarchy.uniqueCounts (sortedOf u) = u := by
+  induction u with
+  | nil => rfl
+  | cons q t ih =>
+    obtain ⟨l, c⟩ := q
+    have ht := (List.pairwise_cons.1 h).2
+    have hl := (List.pairwise_cons.1 h).1
+    have hc : 1 ≤ c := hp (l, c) List.mem_cons_self
+    obtain ⟨c', rfl⟩ : ∃ c', c = c' + 1 := ⟨c - 1, by omega⟩
+    have iht := ih ht (fun p hp' => hp p (List.mem_cons_of_mem _ hp'))
+    unfold sortedOf at iht ⊢
+    unfold Hierarchy.uniqueCounts at iht ⊢
+    rw [List.flatMap_cons, List.foldr_append, iht]
+    exact foldr_insertCount_replicate l t (fun p hp' => hl p hp') c'
+
+/-- `(level, count, start, end)` of the blocks of a block-sorted array that starts at offset `s` -/
+def offs : Nat → List (Nat × Nat) → List (Nat × Nat × Nat × Nat)
+  | _, [] => []
+  | s, (l, c) :: t => (l, c, s, s + c) :: offs (s + c) t
+
+theorem offs_levels (s : Nat) (u : List (Nat × Nat)) : (offs s u).map (·.1) = u.map (·.1) := by
+  induction u generalizing s with
+  | nil => rfl
+  | cons q t ih => obtain ⟨l, c⟩ := q; simp [offs, ih]
+
+theorem offs_counts (s : Nat) (u : List (Nat × Nat)) : (offs s u).map (·.2.1) = u.map (·.2) := by
+  induction u generalizing s with
+  | nil => rfl
+  | cons q t ih => obtain ⟨l, c⟩ := q; simp [offs, ih]
+
+theorem length_sortedOf (u : List (Nat × Nat)) : (sortedOf u).length = sumCounts u := by
+  induction u with
+  | nil => rfl
+  | cons q t ih =>
+    obtain ⟨l, c⟩ := q
+    unfold sortedOf at ih ⊢
+    simp [sumCounts, List.flatMap_cons, ih]
+
+theorem offs_starts_ends (s : Nat) (u : List (Nat × Nat)) :
+    (offs s u).map (·.2.2.1) ++ [s + sumCounts u] = s :: (offs s u).map (·.2.2.2) := by
+  induction u generalizing s with
+  | nil => simp [offs, sumCounts]
+  | cons q t ih =>
+    obtain ⟨l, c⟩ := q
+    have := ih (s + c)
+    simp only [offs, List.map_cons, List.cons_append, sumCounts, List.sum_cons] at this ⊢
+    rw [← Nat.add_assoc, this]
+
+theorem idxOf_sortedOf (u : List (Nat × Nat)) (h : KeysAsc u) (hp : ∀ p ∈ u, 1 ≤ p.2) :
+    ∀ (pre : List Nat), (∀ p ∈ u, p.1 ∉ pre) →
+      u.map (fun p => (pre ++ sortedOf u).idxOf p.1) = (offs pre.length u).map (·.2.2.1) := by
+  induction u with
+  | nil => intro pre _; rfl
+  | cons q t ih =>
+    obtain ⟨l, c⟩ := q
+    intro pre hpre
+    have ht := (List.pairwise_cons.1 h).2
+    have hl := (List.pairwise_cons.1 h).1
+    have hc : 1 ≤ c := hp (l, c) List.mem_cons_self
+    obtain ⟨c', rfl⟩ : ∃ c', c = c' + 1 := ⟨c - 1, by omega⟩
+    have hlpre : l ∉ pre := hpre (l, c' + 1) List.mem_cons_self
+    have hso : sortedOf ((l, c' + 1) :: t) = List.replicate (c' + 1) l ++ sortedOf t := by
+      simp [sortedOf, List.flatMap_cons]
+    have iht := ih ht (fun p hp' => hp p (List.mem_cons_of_mem _ hp')) (pre ++ List.replicate (c' + 1) l) (by
+      intro p hp' hmem
+      rcases List.mem_append.1 hmem with hm | hm
+      · exact hpre p (List.mem_cons_of_mem _ hp') hm
+      · have := (List.mem_replicate.1 hm).2
+        have := hl p hp'
+        simp only at this
+        omega)
+    simp only [List.map_cons, offs, hso]
+    simp only [List.length_append, List.length_replicate, List.append_assoc] at iht
+    rw [← iht, List.idxOf_append_of_notMem hlpre]
+    simp [List.replicate_succ]
+
+theorem zip4_offs (s : Nat) (u : List (Nat × Nat)) :
+    zip4 ((offs s u).map (·.1)) ((offs s u).map (·.2.1)) ((offs s u).map (·.2.2.1)) ((offs s u).map (·.2.2.2)) = offs s u := by
+  generalize offs s u = xs
+  induction xs with
+  | nil => rfl
+  | cons x t ih =>
+    simp only [zip4, List.map_cons, List.zip_cons_cons] at ih ⊢
+    rw [ih]
+
+/-- what the translated code builds from `np.unique(ref_sorted, return_index=True, return_counts=True)`: the blocks -/
+theorem unique_blocks (u : List (Nat × Nat)) (h : KeysAsc u) (hp : ∀ p ∈ u, 1 ≤ p.2) :
+    let r := uniqueIndexCounts (sortedOf u)
+    r.1 = u.map (·.1) ∧
+    zip4 r.1 r.2.2 (dropLast1 (r.2.1 ++ [len (sortedOf u)])) (sliceFrom (r.2.1 ++ [len (sortedOf u)]) 1) = offs 0 u := by
+  simp only [uniqueIndexCounts, uniqueCounts_sortedOf u h hp, true_and]
+  have hs := idxOf_sortedOf u h hp [] (by simp)
+  simp only [List.nil_append, List.length_nil] at hs
+  have he := offs_starts_ends 0 u
+  rw [hs, len, length_sortedOf, dropLast1, sliceFrom, List.dropLast_concat]
+  rw [Nat.zero_add] at he
+  rw [he, List.drop_one, List.tail_cons, ← offs_levels 0 u, ← offs_counts 0 u]
+  exact zip4_offs 0 u
+
+/-! ### `np.argsort` + fancy indexing -/
+
+/-- the positions of level `l`, ascending -/
+def blk (ref : List Nat) (l : Nat) : List Nat := ((ref.zipIdx).filter fun p => p.1 == l).map (·.2)
+
+theorem argsort_eq (ref : List Nat) : argsort ref = ((Hierarchy.uniqueCounts ref).map (·.1)).flatMap (blk ref) := rfl
+
+theorem mem_blk {ref : List Nat} {l i : Nat} : i ∈ blk ref l ↔ ref[i]? = some l := by
+  unfold blk
+  simp only [List.mem_map, List.mem_filter, beq_iff_eq]
+  constructor
+  · rintro ⟨⟨x, j⟩, ⟨hm, hx⟩, rfl⟩
+    have := List.mem_zipIdx_iff_getElem?.1 hm
+    simp only at hx this
+    rw [this, hx]
+  · intro h
+    exact ⟨(l, i), ⟨List.mem_zipIdx_iff_getElem?.2 h, rfl⟩, rfl⟩
+
+theorem mem_argsort {ref : List Nat} {i : Nat} : i ∈ argsort ref ↔ i < ref.length := by
+  rw [argsort_eq, List.mem_flatMap]
+  constructor
+  · rintro ⟨l, _, hi⟩
+    have := mem_blk.1 hi
+    exact (List.getElem?_eq_some_iff.1 this).1
+  · intro h
+    refine ⟨ref[i], mem_keys_uniqueCounts (List.getElem_mem h), mem_blk.2 ?_⟩
+    exact List.getElem?_eq_getElem h
+
+/-- gathering `E` at the positions of level `l` (numbered from `k`) = the estimate scores zipped with that level -/
+theorem gather_blk (l : Nat) : ∀ (ref est : List Nat) (k : Nat) (E : List Nat), (∀ i, E[k + i]? = est[i]?) →
+    ref.length ≤ est.length →
+    (((ref.zipIdx k).filter fun p => p.1 == l).map fun p => (E[p.2]?).getD 0)
+      = ((ref.zip est).filter fun p => p.1 == l).map (·.2) := by
+  intro ref
+  induction ref with
+  | nil => intro est k E _ _; rfl
+  | cons r t ih =>
+    intro est k E hE hlen
+    cases est with
+    | nil => simp at hlen
+    | cons e est' =>
+      have h0 : E[k]? = some e := by simpa using hE 0
+      have iht := ih est' (k + 1) E (fun i => by
+        have := hE (i + 1)
+        simp only [List.getElem?_cons_succ] at this
+        rw [← this]; congr 1; omega) (by simpa using hlen)
+      simp only [List.zipIdx_cons, List.zip_cons_cons, List.filter_cons]
+      by_cases hr : r = l
+      · simp only [hr, beq_self_eq_true, if_true, List.map_cons, h0, Option.getD_some]
+        rw [← iht]
+      · have : (r == l) = false := by simpa using hr
+        simp only [this, Bool.false_eq_true, if_false]
+        exact iht
+
+theorem zip_self (ref : List Nat) : ref.zip ref = ref.map fun x => (x, x) := by
+  induction ref with
+  | nil => rfl
+  | cons x t ih => simp [ih]
+
+theorem lookupCount_of_mem {u : List (Nat × Nat)} (h : KeysAsc u) {p : Nat × Nat} (hp : p ∈ u) :
+    lookupCount u p.1 = p.2 := by
+  induction u with
+  | nil => cases hp
+  | cons q t ih =>
+    have ht := (List.pairwise_cons.1 h).2
+    have hq := (List.pairwise_cons.1 h).1
+    rcases List.mem_cons.1 hp with rfl | hp'
+    · simp [lookupCount]
+    · have hne : (q.1 == p.1) = false := by
+        have := hq p hp'
+        simp only [beq_eq_false_iff_ne, ne_eq]; omega
+      have := ih ht hp'
+      simp only [lookupCount, List.find?_cons, hne] at this ⊢
+      exact this
+
+/-- `ref[np.argsort(ref)]` = the block-sorted array -/
+theorem take_ref_argsort (ref : List Nat) : take ref (argsort ref) = .ok (sortedOf (Hierarchy.uniqueCounts ref)) := by
+  unfold take
+  rw [mapM_ok_of_forall (getItem ref) (fun i => (ref[i]?).getD 0)]
+  · congr 1
+    rw [argsort_eq, List.map_flatMap, sortedOf, List.flatMap_map]
+    apply List.flatMap_congr
+    intro p hp
+    have hb : (blk ref p.1).map (fun i => (ref[i]?).getD 0) = ((ref.zip ref).filter fun q => q.1 == p.1).map (·.2) := by
+      have := gather_blk p.1 ref ref 0 ref (fun i => by simp) (Nat.le_refl _)
+      simpa [blk, Function.comp_def] using this
+    rw [hb, zip_self, List.filter_map, List.map_map]
+    have hc : p.2 = ref.count p.1 := by
+      rw [← lookupCount_of_mem (keysAsc_uniqueCounts ref) hp, lookupCount_uniqueCounts]; rfl
+    rw [hc, ← List.filter_beq]
+    simp [Function.comp_def]
+  · intro i hi
+    have := mem_argsort.1 hi
+    rw [getItem_lt _ _ this]
+    simp [this]
+
+/-- `est[np.argsort(ref)]` = the estimate scores grouped by ascending reference level -/
+theorem take_est_argsort (ref est : List Nat) (h : ref.length ≤ est.length) :
+    take est (argsort ref) = .ok (((Hierarchy.uniqueCounts ref).map (·.1)).flatMap (estAt ref est)) := by
+  unfold take
+  rw [mapM_ok_of_forall (getItem est) (fun i => (est[i]?).getD 0)]
+  · congr 1
+    rw [argsort_eq, List.map_flatMap]
+    apply List.flatMap_congr
+    intro l _
+    have := gather_blk l ref est 0 est (fun i => by simp) h
+    simpa [blk, estAt, Function.comp_def] using this
+  · intro i hi
+    have : i < est.length := Nat.lt_of_lt_of_le (mem_argsort.1 hi) h
+    rw [getItem_lt _ _ this]
+    simp [this]
+
+theorem take_error (x : List Nat) : ∀ (idx : List Nat), (∃ i ∈ idx, x.length ≤ i) → take x idx = .error .indexError := by
+  intro idx
+  induction idx with
+  | nil => rintro ⟨i, hi, _⟩; cases hi
+  | cons j t ih =>
+    intro h
+    unfold take at ih ⊢
+    rw [List.mapM_cons]
+    by_cases hj : j < x.length
+    · rw [getItem_lt _ _ hj]
+      have : ∃ i ∈ t, x.length ≤ i := by
+        obtain ⟨i, hi, hle⟩ := h
+        rcases List.mem_cons.1 hi with rfl | hi
+        · omega
+        · exact ⟨i, hi, hle⟩
+      rw [ih this]; rfl
+    · rw [getItem_ge _ _ (by omega)]; rfl
+
+/-- a shorter estimate: `est[idx]` raises -/
+theorem take_est_short (ref est : List Nat) (h : est.length < ref.length) :
+    take est (argsort ref) = .error .indexError :=
+  take_error est _ ⟨est.length, mem_argsort.2 h, Nat.le_refl _⟩
+
+/-! ### default dictionaries and slices of the grouped array -/
+
+theorem dictGetD_of_mem {V : Type} {d : DDict V} (hd : d.Pairwise fun p q => p.1 ≠ q.1) {k : Nat} {v : V}
+    (h : (k, v) ∈ d) (dflt : V) : dictGetD d k dflt = v := by
+  induction d with
+  | nil => cases h
+  | cons q t ih =>
+    have ht := (List.pairwise_cons.1 hd).2
+    have hq := (List.pairwise_cons.1 hd).1
+    rcases List.mem_cons.1 h with rfl | h'
+    · simp [dictGetD]
+    · have hne : (q.1 == k) = false := by
+        have := hq (k, v) h'
+        simpa using this
+      have := ih ht h'
+      simp only [dictGetD, List.find?_cons, hne] at this ⊢
+      exact this
+
+theorem dictGetD_of_not_mem {V : Type} {d : DDict V} {k : Nat} (h : ∀ p ∈ d, p.1 ≠ k) (dflt : V) :
+    dictGetD d k dflt = dflt := by
+  unfold dictGetD
+  rw [List.find?_eq_none.2 (by intro p hp; simpa using h p hp)]
+
+/-- the grouped array: one block per level -/
+def blocks (g : Nat → List Nat) (u : List (Nat × Nat)) : List Nat := u.flatMap fun p => g p.1
+
+theorem getSlice_blocks (g : Nat → List Nat) : ∀ (u : List (Nat × Nat)), (∀ p ∈ u, (g p.1).length = p.2) →
+    ∀ (pre : List Nat) (x : Nat × Nat × Nat × Nat), x ∈ offs pre.length u →
+      getSlice (pre ++ blocks g u) (x.2.2.1, x.2.2.2) = g x.1 := by
+  intro u
+  induction u with
+  | nil => intro _ pre x hx; cases hx
+  | cons q t ih =>
+    obtain ⟨l, c⟩ := q
+    intro hg pre x hx
+    have hl : (g l).length = c := hg (l, c) List.mem_cons_self
+    have hb : blocks g ((l, c) :: t) = g l ++ blocks g t := by simp [blocks, List.flatMap_cons]
+    simp only [offs] at hx
+    rcases List.mem_cons.1 hx with rfl | hx'
+    · simp only [getSlice, pySlice, hb]
+      rw [List.drop_left, Nat.add_sub_cancel_left, ← hl, List.take_left]
+    · have := ih (fun p hp => hg p (List.mem_cons_of_mem _ hp)) (pre ++ g l) x (by
+        simpa [hl] using hx')
+      rw [hb, ← List.append_assoc]
+      exact this
+
+theorem offs_pairs (s : Nat) (u : List (Nat × Nat)) : (offs s u).map (fun x => (x.1, x.2.1)) = u := by
+  induction u generalizing s with
+  | nil => rfl
+  | cons q t ih => obtain ⟨l, c⟩ := q; simp [offs, ih]
+
+theorem keys_ne_of_keysAsc {u : List (Nat × Nat)} (h : KeysAsc u) : u.Pairwise fun p q => p.1 ≠ q.1 :=
+  List.Pairwise.imp (fun hlt => Nat.ne_of_lt hlt) h
+
+theorem lookupCount_of_not_mem {u : List (Nat × Nat)} {l : Nat} (h : ∀ p ∈ u, p.1 ≠ l) : lookupCount u l = 0 := by
+  unfold lookupCount
+  rw [List.find?_eq_none.2 (by intro p hp; simpa using h p hp)]
+
+/-- the `ref_map` the translated loop builds (newest binding first) looks levels up like the model's `lookupCount` -/
+theorem dictGetD_reverse_lookupCount {u : List (Nat × Nat)} (h : KeysAsc u) (l : Nat) :
+    dictGetD (u.reverse : DDict Nat) l 0 = lookupCount u l := by
+  by_cases hm : ∃ p ∈ u, p.1 = l
+  · obtain ⟨p, hp, rfl⟩ := hm
+    rw [lookupCount_of_mem h hp]
+    apply dictGetD_of_mem
+    · rw [List.pairwise_reverse]
+      exact List.Pairwise.imp (fun hne => Ne.symm hne) (keys_ne_of_keysAsc h)
+    · simpa using hp
+  · have hn : ∀ p ∈ u, p.1 ≠ l := fun p hp e => hm ⟨p, hp, e⟩
+    rw [lookupCount_of_not_mem hn, dictGetD_of_not_mem (by simpa using hn)]
+
+theorem length_estAt (ref est : List Nat) (h : ref.length ≤ est.length) (l : Nat) :
+    (estAt ref est l).length = lookupCount (Hierarchy.uniqueCounts ref) l := by
+  rw [lookupCount_uniqueCounts]
+  unfold estAt
+  rw [List.length_map, ← List.countP_eq_length_filter]
+  conv => rhs; rw [← List.map_fst_zip h]
+  rw [List.countP_map]
+  rfl
+
+/-- slicing the grouped estimate scores with the `index` dictionary the translated loop builds gives the model's
+    `estAt` for EVERY level (a level that does not occur hits the default `slice(0)`: the empty slice) -/
+theorem getSlice_index (ref est : List Nat) (h : ref.length ≤ est.length) (l : Nat) :
+    getSlice (((Hierarchy.uniqueCounts ref).map (·.1)).flatMap (estAt ref est))
+      (dictGetD (((offs 0 (Hierarchy.uniqueCounts ref)).map fun x => (x.1, slice2 x.2.2.1 x.2.2.2)).reverse) l (slice1 0))
+      = estAt ref est l := by
+  have hk := keysAsc_uniqueCounts ref
+  have hb : ((Hierarchy.uniqueCounts ref).map (·.1)).flatMap (estAt ref est)
+      = [] ++ blocks (estAt ref est) (Hierarchy.uniqueCounts ref) := by
+    simp [blocks, List.flatMap_map]
+  by_cases hm : ∃ x ∈ offs 0 (Hierarchy.uniqueCounts ref), x.1 = l
+  · obtain ⟨x, hx, rfl⟩ := hm
+    rw [dictGetD_of_mem (v := slice2 x.2.2.1 x.2.2.2)]
+    · rw [hb]
+      exact getSlice_blocks (estAt ref est) _ (fun p hp => by
+        rw [length_estAt ref est h, lookupCount_of_mem hk hp]) [] x hx
+    · rw [List.pairwise_reverse, List.pairwise_map]
+      have := keys_ne_of_keysAsc hk
+      rw [← offs_pairs 0 (Hierarchy.uniqueCounts ref), List.pairwise_map] at this
+      exact List.Pairwise.imp (fun hne => Ne.symm hne) this
+    · simp only [List.mem_reverse, List.mem_map]
+      exact ⟨x, hx, rfl⟩
+  · have hn : ∀ p ∈ Hierarchy.uniqueCounts ref, p.1 ≠ l := by
+      intro p hp e
+      have : p.1 ∈ (offs 0 (Hierarchy.uniqueCounts ref)).map (·.1) := by
+        rw [offs_levels]; exact List.mem_map_of_mem hp
+      obtain ⟨x, hx, hx1⟩ := List.mem_map.1 this
+      exact hm ⟨x, hx, hx1.trans e⟩
+    rw [dictGetD_of_not_mem]
+    · have hl : l ∉ ref := by
+        intro hl
+        obtain ⟨p, hp, e⟩ := List.mem_map.1 (mem_keys_uniqueCounts hl)
+        exact hn p hp e
+      have : estAt ref est l = [] := by
+        unfold estAt
+        rw [List.map_eq_nil_iff, List.filter_eq_nil_iff]
+        intro p hp
+        have := mem_zip_fst hp
+        simp only [beq_iff_eq]
+        intro e; exact hl (e ▸ this)
+      rw [this]
+      simp [getSlice, slice1, pySlice]
+    · intro p hp
+      simp only [List.mem_reverse, List.mem_map] at hp
+      obtain ⟨x, hx, rfl⟩ := hp
+      intro e
+      exact hm ⟨x, hx, e⟩
+
 end Mir.PyH
